@@ -39,6 +39,11 @@ const char* const KF_SET_ROWS = "C09-swapcolumns-set-rows";
 const char* const KF_VECTOR_ROW = "C09-vector-zero-entry-row";
 const char* const KF_VECTOR_LEN = "C09-vector-content-length";
 const char* const KF_VECTOR_SRC = "C09-vector-erased-source";
+const char* const KF_VECTOR_ERASED_ROW = "C09-vector-erased-entry-erased-row";
+// only with -DC09_COPY_OPS (property C15, matrix part)
+const char* const KF_MOVED_FROM = "C15-matrix-moved-from-unusable";
+const char* const KF_COMP_COPY = "C15-compression-copy-column-count";
+const char* const KF_VECTOR_COPY = "C15-vector-copy-relinks-erased-entry";
 
 // Bookkeeping of the *input domain* (not part of the oracle): which rows the lazy swap tables of the implementation
 // have seen, which rows exist in the row container (get_row on a row that was never created is outside the domain:
@@ -54,6 +59,7 @@ struct Track {
   unsigned rowsSize = 0;           // vector rows: size of the row container
   std::vector<unsigned> label;     // row access: column index a column object stamps on the entries it creates
   std::vector<bool> lazyErased;    // VECTOR columns: zero_entry was called since the column was last emptied (conservative)
+  unsigned reserved = 0;           // number of columns announced to the reserving constructor
 
   Track() : pubToReal(RMAX + 8), label(CMAX + 8), lazyErased(CMAX + 8, false) {
     for (unsigned i = 0; i < pubToReal.size(); ++i) pubToReal[i] = i;
@@ -150,6 +156,10 @@ class History {
     lastOp = "ctor";
     after_step(true);
 
+#ifdef C09_COPY_OPS
+    run_pool();
+    return;
+#endif
     unsigned steps = 0;
     while (!t.exhausted() && steps < MAX_STEPS) {
       ++steps;
@@ -175,6 +185,269 @@ class History {
   bool narrow = false;  // tape-chosen per case: with swaps, touch only rows the swap tables have seen
 
   bool ex(const char* id) { return ctx.excluded(id); }
+
+#ifdef C09_COPY_OPS
+  // ------------------------------------------------------------------------------------------- C15 (matrix part)
+  // A pool of up to 3 (Matrix, model, bookkeeping) triples. The members m / model / tr are the triple that is currently
+  // "checked out" of pool[cur], so that every operation of the plain C09 history works on it unchanged. Pool operations:
+  // copy construction, copy assignment (also self and onto a non-empty matrix), move construction, move assignment,
+  // the friend swap, destruction. After every step every live object is read back completely against its own model.
+  enum SlotState { FREE = 0, LIVE = 1, MOVED = 2 };
+  struct Slot {
+    std::unique_ptr<M> m;
+    std::unique_ptr<Dense> model;
+    Track tr;
+    SlotState state = FREE;
+    int pair = -1;  // id of the last copy / move / swap relation this object took part in
+  };
+  struct Pair {
+    bool big = false, diverged = false;
+  };
+  static const unsigned POOL = 3;
+  Slot pool[POOL];
+  unsigned cur = 0;
+  bool out = false;  // members currently hold pool[cur]
+  std::map<int, Pair> pairs;
+  int nextPair = 0;
+  bool ntCopy = false;
+
+  void checkin() {
+    if (!out) return;
+    pool[cur].m = std::move(m);
+    pool[cur].model = std::move(model);
+    std::swap(pool[cur].tr, tr);
+    out = false;
+  }
+  void checkout(unsigned i) {
+    checkin();
+    cur = i;
+    m = std::move(pool[i].m);
+    model = std::move(pool[i].model);
+    std::swap(pool[i].tr, tr);
+    out = true;
+  }
+  std::vector<unsigned> slots_in(SlotState a, SlotState b) const {
+    std::vector<unsigned> v;
+    for (unsigned i = 0; i < POOL; ++i)
+      if (pool[i].state == a || pool[i].state == b) v.push_back(i);
+    return v;
+  }
+  // the copy owns a new row container: only rows that hold entries are known to exist in it
+  static Track track_of_copy(const Track& src) {
+    Track c = src;
+    if (c.rmrows) c.realExists.clear();
+    return c;
+  }
+  void relate(unsigned a, unsigned b) {
+    int id = nextPair++;
+    pairs[id].big = a != b && pool[a].model && pool[a].model->count_present() >= 4;
+    pool[a].pair = id;
+    if (b != a) pool[b].pair = id;
+    if (pairs[id].big) ctx.hit("copy-of-4+-columns");
+  }
+  void read_all_live(const char* why) {
+    for (unsigned i = 0; i < POOL; ++i) {
+      if (pool[i].state != LIVE) continue;
+      checkout(i);
+      try {
+        after_step(true);
+      } catch (const vf::Violation& v) {
+        throw vf::Violation(v.tag, std::string("object #") + std::to_string(i) + " (read after " + why + "): " + v.msg);
+      }
+      checkin();
+    }
+  }
+
+  void run_pool() {
+    // the constructed matrix is slot 0
+    pool[0].state = LIVE;
+    cur = 0;
+    out = true;
+    checkin();
+    unsigned steps = 0;
+    while (!t.exhausted() && steps < MAX_STEPS) {
+      ++steps;
+      unsigned b = t.u8();
+      std::vector<unsigned> live = slots_in(LIVE, LIVE);
+      unsigned s = live[(b & 3) % live.size()];
+      unsigned kind = (b >> 2) & 7;
+      if (kind <= 4) {
+        checkout(s);
+        ctx.desc << " #" << s;
+        std::string before = model->render();
+        step();
+        if (pool[s].pair >= 0 && model->render() != before && !pairs[pool[s].pair].diverged) {
+          pairs[pool[s].pair].diverged = true;
+          ctx.hit("related-objects-diverged");
+          if (pairs[pool[s].pair].big) ntCopy = true;
+        }
+        checkin();
+      } else {
+        pool_op(s);
+      }
+      read_all_live("step");
+    }
+    lastOp = "final";
+    read_all_live("final");
+    // destroy in a tape-independent order, reading the survivors after each destruction
+    for (unsigned i = 0; i < POOL; ++i) {
+      if (pool[i].state == FREE) continue;
+      pool[i].m.reset();
+      pool[i].model.reset();
+      pool[i].state = FREE;
+      lastOp = "destroy";
+      read_all_live("destroy");
+    }
+    ctx.hit("steps", steps);
+    if (ntCopy) ctx.mark_nontrivial();
+  }
+
+  void check_moved_from(unsigned i) {
+    // Matrix(Matrix&&): "After the move, the given matrix will be empty."
+    unsigned n = pool[i].m->get_number_of_columns();
+    VF_CHECK(n == 0, tag("moved_from_not_empty"), "moved-from matrix #" << i << " reports " << n << " columns");
+  }
+
+  void pool_op(unsigned src) {
+    std::vector<unsigned> freeS = slots_in(FREE, FREE), targets = slots_in(LIVE, MOVED), moved = slots_in(MOVED, MOVED);
+    unsigned what = t.below(7);
+    if (what <= 1) {  // known findings of the copy constructors: choose something else
+      const Slot& s = pool[src];
+      if (comp && s.tr.reserved > s.model->end() && ex(KF_COMP_COPY)) {
+        ctx.hit(std::string("excluded:") + KF_COMP_COPY);
+        return skip("copy of a compressed matrix with reserved but unused column slots");
+      }
+      if (vectorCol && ra && ex(KF_VECTOR_COPY)) {
+        for (unsigned c : s.model->present_columns())
+          if (s.tr.lazyErased[c]) {
+            ctx.hit(std::string("excluded:") + KF_VECTOR_COPY);
+            return skip("copy of a vector-column matrix with row access holding a lazily erased entry");
+          }
+      }
+    }
+    switch (what) {
+      case 0: {  // copy construction
+        if (freeS.empty()) return skip("no free slot");
+        unsigned d = freeS[0];
+        lastOp = "copy_construct";
+        ctx.desc << "  #" << d << " = Matrix(#" << src << ")   [copy constructor]\n";
+        pool[d].m.reset(new M(*pool[src].m));
+        pool[d].model.reset(new Dense(*pool[src].model));
+        pool[d].tr = track_of_copy(pool[src].tr);
+        pool[d].state = LIVE;
+        relate(src, d);
+        ctx.hit("pool:copy_construct");
+        break;
+      }
+      case 1: {  // copy assignment, also self and onto a non-empty or moved-from matrix
+        unsigned d = targets[t.below((unsigned)targets.size())];
+        lastOp = d == src ? "self_assign" : "copy_assign";
+        ctx.desc << "  #" << d << " = #" << src << "   [copy assignment" << (pool[d].state == MOVED ? " onto a moved-from matrix" : "")
+                 << "]\n";
+        *pool[d].m = *pool[src].m;
+        if (d == src) pool[d].tr = track_of_copy(pool[d].tr);  // assignment takes its argument by value: d is now a copy of itself
+        if (d != src) {
+          pool[d].model.reset(new Dense(*pool[src].model));
+          pool[d].tr = track_of_copy(pool[src].tr);
+          pool[d].state = LIVE;
+          relate(src, d);
+        }
+        ctx.hit(d == src ? "pool:self_assign" : "pool:copy_assign");
+        break;
+      }
+      case 2: {  // move construction
+        if (freeS.empty()) return skip("no free slot");
+        unsigned d = freeS[0];
+        lastOp = "move_construct";
+        ctx.desc << "  #" << d << " = Matrix(std::move(#" << src << "))\n";
+        pool[d].m.reset(new M(std::move(*pool[src].m)));
+        pool[d].model = std::move(pool[src].model);
+        pool[d].tr = pool[src].tr;
+        pool[d].state = LIVE;
+        pool[src].state = MOVED;
+        relate(d, d);
+        check_moved_from(src);
+        ctx.hit("pool:move_construct");
+        break;
+      }
+      case 3: {  // move assignment (not onto itself)
+        std::vector<unsigned> cand;
+        for (unsigned x : targets)
+          if (x != src) cand.push_back(x);
+        if (cand.empty()) return skip("no other object");
+        unsigned d = cand[t.below((unsigned)cand.size())];
+        lastOp = "move_assign";
+        ctx.desc << "  #" << d << " = std::move(#" << src << ")\n";
+        *pool[d].m = std::move(*pool[src].m);
+        pool[d].model = std::move(pool[src].model);
+        pool[d].tr = pool[src].tr;
+        pool[d].state = LIVE;
+        pool[src].state = MOVED;
+        relate(d, d);
+        check_moved_from(src);
+        ctx.hit("pool:move_assign");
+        break;
+      }
+      case 4: {  // friend swap of two different live objects
+        std::vector<unsigned> cand;
+        for (unsigned x : slots_in(LIVE, LIVE))
+          if (x != src) cand.push_back(x);
+        if (cand.empty()) return skip("no other object");
+        unsigned d = cand[t.below((unsigned)cand.size())];
+        lastOp = "swap";
+        ctx.desc << "  swap(#" << src << ", #" << d << ")\n";
+        swap(*pool[src].m, *pool[d].m);
+        std::swap(pool[src].model, pool[d].model);
+        std::swap(pool[src].tr, pool[d].tr);
+        std::swap(pool[src].pair, pool[d].pair);
+        ctx.hit("pool:swap");
+        break;
+      }
+      case 5: {  // destruction (at least one live object stays)
+        std::vector<unsigned> cand = moved;
+        if (slots_in(LIVE, LIVE).size() > 1) cand.push_back(src);
+        if (cand.empty()) return skip("last live object");
+        unsigned d = cand[t.below((unsigned)cand.size())];
+        lastOp = "destroy";
+        ctx.desc << "  destroy #" << d << (pool[d].state == MOVED ? " (moved-from)" : "") << "\n";
+        if (pool[d].state == LIVE && pool[d].pair >= 0 && pairs[pool[d].pair].diverged) ctx.hit("destroyed-after-divergence");
+        pool[d].m.reset();
+        pool[d].model.reset();
+        pool[d].state = FREE;
+        pool[d].pair = -1;
+        ctx.hit("pool:destroy");
+        break;
+      }
+      default: {  // use a moved-from matrix again without assigning to it ("empty")
+        if (moved.empty()) return skip("no moved-from object");
+        unsigned d = moved[t.below((unsigned)moved.size())];
+        if (ex(KF_MOVED_FROM)) {
+          ctx.hit(std::string("excluded:") + KF_MOVED_FROM);
+          return skip("moved-from matrix is only assigned to or destroyed");
+        }
+        lastOp = "reuse_moved_from";
+        ctx.desc << "  #" << d << ": moved-from matrix used again as an empty matrix (set_characteristic, insert_column)\n";
+        pool[d].m->set_characteristic(p);
+        Sparse s;
+        s.push_back(std::make_pair(0u, 1u));
+        pool[d].m->insert_column(to_reps(s));
+        pool[d].model.reset(new Dense(p, RMAX, comp));
+        pool[d].model->insert_end(s);
+        Track fresh;
+        fresh.swaps = swapsOn;
+        fresh.mapc = mapc;
+        fresh.ra = ra;
+        fresh.rmrows = O::has_removable_rows;
+        fresh.saw_inserted_row(0);
+        pool[d].tr = fresh;
+        pool[d].state = LIVE;
+        pool[d].pair = -1;
+        ctx.hit("pool:reuse_moved_from");
+        break;
+      }
+    }
+  }
+#endif
   // rows unknown to the lazy-swap tables are avoided either because the case says so or because of the known finding
   bool only_known_rows() {
     if (!swapsOn) return false;
@@ -269,6 +542,7 @@ class History {
       unsigned n = t.below(CMAX + 2);
       ctx.desc << "Matrix(" << n << ", " << p << ")\n";
       m.reset(new M(n, p));
+      tr.reserved = n;
       if (swapsOn) {
         if (mapc)
           for (unsigned i = 0; i < n; ++i) tr.known.insert(i);
@@ -333,7 +607,11 @@ class History {
     std::vector<std::pair<Op, unsigned> > ops;
     std::vector<unsigned> pres = model->present_columns();
     const unsigned n = (unsigned)pres.size();
+#ifdef C09_COPY_OPS
+    if (n < CMAX && model->end() < CMAX + 2) ops.push_back({INS, n < 5 ? 14u : 4u});  // copies of larger matrices
+#else
     if (n < CMAX && model->end() < CMAX + 2) ops.push_back({INS, n < 3 ? 8u : 4u});
+#endif
     if (n >= 2) {
       ops.push_back({ADD, 4});
       ops.push_back({MTA, 4});
@@ -774,6 +1052,15 @@ class History {
       if (model->is_zero_row(r) && (tr.known_row(r) || !only_known_rows())) cand.push_back(r);
     if (cand.empty()) return skip("no empty row");
     unsigned r = cand[t.below((unsigned)cand.size())];
+    if (vectorCol && ra && !O::has_intrusive_rows && O::has_removable_rows && ex(KF_VECTOR_ERASED_ROW)) {
+      // a lazily erased entry is unlinked from its row a second time when it is finally destroyed; with removable set
+      // rows the row may be gone by then
+      for (unsigned c : model->present_columns())
+        if (tr.lazyErased[c]) {
+          ctx.hit(std::string("excluded:") + KF_VECTOR_ERASED_ROW);
+          return skip("vector column holding a lazily erased entry: erase_empty_row");
+        }
+    }
     ctx.desc << "  erase_empty_row(" << r << ")\n";
     m->erase_empty_row(r);
     if (swapsOn && mapc) tr.known.erase(r);
